@@ -14,7 +14,7 @@ PROP = {
     'extra': {'quick': {'direct': 2000, 'e2e': 500}, 'thorough': {'direct': 100000, 'e2e': 2000}},
     'replay_header': C05_HEADER,
     'replay_footer': C05_FOOTER,
-    'stats_keys': ['direct_cases', 'e2e_cases', 'timing_ms', 'final_repo_sync'],
+    'stats_keys': ['direct_cases', 'e2e_cases', 'resource_changes_of_the_live_ca', 'timing_ms', 'final_repo_sync'],
     'assumptions': [
         'held resources are lists of merged blocks (the harness reads them back from the real ResourceSet, which keeps them merged); "one block covers the prefix" is then "every address is held" (theorem C05_covered_iff_all_addresses)',
         'comments are abstracted to identifiers (only equality is used); RouteInfo.since / StoredBgpSecCsr.since time stamps are not compared',
